@@ -829,6 +829,8 @@ func (x *Exec) builtin(fr *Frame, st *State, b *ssa.Builtin, c *ssa.CallCommon, 
 	case "copy":
 		return x.copyOp(fr, st, c, args)
 	case "delete":
+		// site `before:delete#k`: arg0 = the map, arg1 = the key (evaluated before the entry is removed)
+		x.atSite(fr, st, "before:delete", fr.siteOrd("delete", fr.curInstr), map[string]Val{"arg0": args[0], "arg1": args[1]}, map[string]types.Type{"arg0": c.Args[0].Type(), "arg1": c.Args[1].Type()})
 		m, k := args[0].T, args[1].T
 		mt := c.Args[0].Type()
 		kh, kc := vc.heapKey("MH", mt), vc.heapKey("MC", mt)
@@ -1099,9 +1101,10 @@ func (x *Exec) ownCtx(fr *Frame, st *State, body bool) *EvalCtx {
 	}
 	if body {
 		// several locals may share a source name (shadowing, one `i` per switch
-		// case): `name`, `name#2`, ...  The name denotes the one that is live in
-		// this state - allocated on the path that leads here - and, among those,
-		// the most recently declared.
+		// case): `name`, `name#2`, ...  The name denotes the first declared one
+		// that is live in this state (allocated on the path that leads here): the
+		// outer variable when an inner one shadows it, the case's own variable
+		// when the same name is declared once per switch case.
 		type cand struct {
 			k int
 			a *ssa.Alloc
@@ -1122,7 +1125,7 @@ func (x *Exec) ownCtx(fr *Frame, st *State, body bool) *EvalCtx {
 		}
 		chosen := map[string]*ssa.Alloc{}
 		for base, cs := range groups {
-			sort.Slice(cs, func(i, j int) bool { return cs[i].k > cs[j].k })
+			sort.Slice(cs, func(i, j int) bool { return cs[i].k < cs[j].k })
 			for _, c := range cs {
 				lv, has := fr.regs[c.a]
 				if !has {
